@@ -426,11 +426,11 @@ def delFabricKeys (hi : Nat) : Nat → Nat → KV → List KV → KV × List KV
 /-- the part of a session-borne command that runs after the IM prologue -/
 def sessOp (cfg : Cfg) (n : Node) (sid : Nat) (mode : Mode) : Op → Node × Status
   | .openW _ =>
-    -- adm_comm.rs:215: window timeout check, opener = the fabric of the calling CASE session
+    -- adm_comm.rs:215: window timeout check, opener = the fabric of the calling session if it is a CASE one (adm_comm.rs:76)
     let n := windowTimeout n
     if n.window.isSome then (n, .err "Busy")
     else
-      let opener := if mode.fab ≠ 0 ∧ hasFabric n mode.fab then mode.fab else 0
+      let opener := if mode.isCase then mode.fab else 0
       ok { n with window := some { opener := opener, expiry := n.now + 300 } }
   | .arm _ secs =>
     -- gen_comm.rs:351
